@@ -349,6 +349,36 @@ def r3(ctx, bearing):
             ctx.ob("R3", "visit_dependent_rule_ids/%s" % field, field in touched,
                    ("toposort visitor reads SerializableRule.%s" % field) if field in touched else "the dependency visitor never looks at SerializableRule.%s (%s): cyclic utilities through it are not detected and registration order ignores it" % (field, why),
                    where=vd.loc())
+    # global utilities: a RuleCore is matched on one node through its rule, its constraints (a constraint on a variable bound to
+    # the node itself) and its local utils; the dependency visitor of global utils must look at all of them
+    gv = prog.find_fns(r"^<\(L, ast_grep_config::rule_core::SerializableRuleCore\) as ast_grep_config::rule::deserialize_env::DependentRule>::visit_dependency$")
+    core_adt = prog.adts.get("ast_grep_config::rule_core::SerializableRuleCore")
+    if len(gv) != 1 or core_adt is None:
+        ctx.ob("R3", "global util dependency visitor anchor", False, "visitor or SerializableRuleCore not found (%d)" % len(gv))
+    else:
+        same_node_fields = [f["name"] for f in core_adt["variants"][0]["fields"] if "SerializableRule" in f["ty"] and "Transformation" not in f["ty"]]
+        touched = set()
+        for f in prog.family(gv[0]):
+            for b in f.blocks:
+                for st in b["s"]:
+                    if st[0] == "A":
+                        for pl in places_of(st):
+                            for p_ in pl[1]:
+                                if p_.startswith(".") and "SerializableRuleCore" in p_:
+                                    touched.add(p_[1:].split("|")[0])
+                t = b["t"]
+                if t[0] == "call":
+                    for a in t[2]:
+                        if a[0] != "k":
+                            for p_ in a[1][1]:
+                                if p_.startswith(".") and "SerializableRuleCore" in p_:
+                                    touched.add(p_[1:].split("|")[0])
+        for fld in same_node_fields:
+            ctx.ob("R3", "global util visitor/%s" % fld, fld in touched,
+                   ("the toposort of global utils follows references inside SerializableRuleCore.%s" % fld) if fld in touched else
+                   "global utility rules are sorted/checked for cycles by looking at `rule` only; references inside `%s` are evaluated on the same node at match time, so a global util that reaches itself through its %s is accepted and recurses without bound" % (fld, fld),
+                   where=gv[0].loc())
+        ctx.floor("R3", "same-node fields of SerializableRuleCore", len(same_node_fields), 3)
     # transformations: visit_dependency passes used_vars() to sorter.visit; source() exhaustive
     tv = prog.find_fns(r"<ast_grep_config::transform::transformation::Transformation<.*> as ast_grep_config::rule::deserialize_env::DependentRule>::visit_dependency$")
     if len(tv) != 1:
@@ -442,6 +472,10 @@ def r4(ctx):
 
     walk(parse, [])
     ctx.floor("R4", "template constructions under Fixer::parse", n, 3)
+    # the names are produced from a HashMap in arbitrary order: the template scanner must treat them as a set
+    from . import c13
+    ok, msg = c13.GUARDS["transform_names_used_as_set"](ctx)
+    ctx.ob("R4", "template scanner treats transform names as a set", ok, msg)
     # all callers of Fixer::parse / with_transform hand over the rule's own transform field
     for c in prog.who_calls(r"^ast_grep_config::fixer::Fixer::<L>::(parse|with_transform)$"):
         if c.fn.id.startswith("ast_grep_config::fixer::"):
